@@ -195,6 +195,65 @@ func (f *Facts) JoinCases(v ssa.Value, at *ssa.BasicBlock) []JoinCase {
 	return out
 }
 
+// Alternatives returns the fact sets under which b can be entered, one per way of getting there. Normally that is
+// the one set At(b). Where b is guarded by a boolean variable that was assigned in several arms and tested after
+// they joined (`ok = <cond>` in each arm, then `if ok { b }` - the test is on a φ of the arms' values), there is one
+// set per arm: what held at the end of that arm plus what the arm's value being the tested outcome says. Arms
+// whose value is the opposite constant cannot lead to b and are left out. The facts that hold at b on every path
+// are part of every set.
+func (f *Facts) Alternatives(b *ssa.BasicBlock) [][]Fact {
+	base, ok := f.in[b]
+	if !ok {
+		return nil
+	}
+	var ph *ssa.Phi
+	var want bool
+	for k := range base {
+		p, isPhi := k.Cond.(*ssa.Phi)
+		if !isPhi || p.Comment == "&&" || p.Comment == "||" || len(p.Edges) != len(p.Block().Preds) {
+			continue
+		}
+		if ph != nil && ph != p {
+			return [][]Fact{f.At(b)} // two joined flags at once: not split
+		}
+		ph, want = p, k.Val
+	}
+	if ph == nil {
+		return [][]Fact{f.At(b)}
+	}
+	var out [][]Fact
+	jb := ph.Block()
+	for i, e := range ph.Edges {
+		p := jb.Preds[i]
+		pin, reached := f.in[p]
+		if !reached {
+			continue
+		}
+		if k, isC := e.(*ssa.Const); isC {
+			if v, isB := ConstBool(k); isB && v != want {
+				continue
+			}
+		}
+		set := factSet{}
+		for k := range base {
+			set[k] = struct{}{}
+		}
+		for k := range pin {
+			set[k] = struct{}{}
+		}
+		if ifi, isIf := p.Instrs[len(p.Instrs)-1].(*ssa.If); isIf && len(p.Succs) == 2 && p.Succs[0] != p.Succs[1] {
+			addFact(set, ifi.Cond, p.Succs[0] == jb, 0)
+		}
+		addFact(set, e, want, 0)
+		var alt []Fact
+		for k := range set {
+			alt = append(alt, k)
+		}
+		out = append(out, alt)
+	}
+	return out
+}
+
 // Reachable reports whether b is reachable from the entry.
 func (f *Facts) Reachable(b *ssa.BasicBlock) bool {
 	_, ok := f.in[b]
